@@ -32,7 +32,7 @@ RULE = (
     "re-constructions under other insertion orders / labels / hash seeds)"
 )
 ASSUMPTIONS = [
-    "variable names are strings (three alphabets incl. empty / non-ASCII / non-identifier names); ancestors are given as frozensets",
+    "variable names are strings (six alphabets incl. empty / non-ASCII / non-identifier names and names equal up to case, surrounding whitespace, casefold or NFKC); ancestors are given as frozensets",
     "graphs larger than the bound (4 nodes quick, 5 nodes thorough) are only covered through the model graphs of lmc.models.MODEL_SPECS (36-71 nodes)",
     "a refusal must be a ValueError (LeaspyInputError is one); its reason is only compared when the message is one of the five known ones",
     "key order of the plain mappings direct_children / sorted_children / sorted_variables_by_type is not part of the property",
@@ -45,19 +45,19 @@ N_VAR4_SHARDS = 32
 
 def bounds(tier):
     b = {
-        "digraphs": "all labelled digraphs on n<=4 nodes x 3 name alphabets x applicable constructors (each built twice)",
+        "digraphs": "all labelled digraphs on n<=4 nodes x 6 name alphabets (0,1,2,4,5,6) x applicable constructors (each built twice)",
         "variants": "n<=3: every self-reference subset x unknown-reference subset; key variants (extra/missing key, extra variable) for the direct constructor",
-        "insertion_orders": "n<=3: every order of the variables dict x every order of the ancestors dict/sets; n=4: all 24 common orders, alphabets 0-1",
-        "relabellings": "n<=4: all n! relabellings, alphabet 0 and 1, direct + from_dict",
+        "insertion_orders": "n<=3: every order of the variables dict x every order of the ancestors dict/sets; n<=3: alphabets 0,1,4,5,6; n=4: all 24 common orders, alphabets 1,4,5",
+        "relabellings": "n<=4: all n! relabellings, alphabets 0 and 4, direct + from_dict",
         "families": "15 named families (chain, complete, stars, diamond ladder, bipartite, tree, late root, rings, back edges, rootless cycle, isolated) for every size 5..%d x 4 namings x 3 constructors" % (10 if tier == "quick" else 16),
         "model_graphs": "every lmc.models.MODEL_SPECS entry: model.dag, fresh from_dict, reversed/sorted plain dicts, implicit nodes",
         "hash_seeds": "{1, 2, 3+seed} vs 0: all n<=4 digraphs x alphabets x constructors, all model graphs",
     }
     if tier == "thorough":
-        b["digraphs"] += "; all 2^20 digraphs on 5 nodes x alphabets 0-1 x 2 constructors"
+        b["digraphs"] += "; all 2^20 digraphs on 5 nodes x alphabets 0,1,4 x 2 constructors"
         b["variants"] += "; n=4: every self-reference subset x unknown-reference subset x every digraph (direct + from_dict)"
         b["insertion_orders"] += "; n=5: every accepted DAG x 6 orders"
-        b["hash_seeds"] += "; every accepted 5-node DAG (alphabet 1, direct + from_dict)"
+        b["hash_seeds"] += "; every accepted 5-node DAG (alphabets 1 and 4, direct + from_dict)"
     return b
 
 
@@ -69,45 +69,47 @@ def shards(tier, seed):
     from ..models import MODEL_SPECS
 
     out = []
-    for a in range(3):
+    for a in L.GRID_ALPHABETS:
         out.append({"kind": "small", "names": a})
-    for a in range(3):
+    for a in L.GRID_ALPHABETS:
         for lo, hi in ((0, 2048), (2048, 4096)):
             out.append({"kind": "grid", "n": 4, "names": a, "lo": lo, "hi": hi, "path_matrix": True})
     out.append({"kind": "families", "ks": list(range(5, 11 if tier == "quick" else 17))})
     for name in MODEL_SPECS:
         out.append({"kind": "model", "name": name})
-    for a in range(2):
+    for a in (0, 1, 4, 5, 6):
         out.append({"kind": "order_small", "names": a})
+    for a in (1, 4, 5):
         for lo in range(0, 4096, 512):
             out.append({"kind": "order", "n": 4, "names": a, "lo": lo, "hi": lo + 512})
-    for a in range(2):
+    for a in (0, 4):
         out.append({"kind": "relabel", "ns": [2, 3], "names": a, "lo": 0, "hi": 4096})
         for lo in range(0, 4096, 512):
             out.append({"kind": "relabel", "ns": [4], "names": a, "lo": lo, "hi": lo + 512})
     for hs in hash_seeds(seed):
         out.append({"kind": "hashseed", "hashseed": hs, "desc": {"what": "models", "models": list(MODEL_SPECS)}})
-        for a in range(3):
+        for a in L.GRID_ALPHABETS:
             out.append({"kind": "hashseed", "hashseed": hs, "desc": {"what": "grid", "ns": [2, 3, 4], "names": a}})
         out.append({"kind": "hashseed", "hashseed": hs, "desc": {"what": "families", "ks": list(range(5, 11 if tier == "quick" else 17))}})
     if tier == "thorough":
         step = (1 << 20) // N_GRID5_SHARDS
-        for a, ctors in ((0, ["direct", "from_dict"]), (1, ["direct", "from_dict_nif"])):
+        for a, ctors in ((0, ["direct", "from_dict"]), (1, ["direct", "from_dict_nif"]), (4, ["direct", "from_dict"])):
             for lo in range(0, 1 << 20, step):
                 out.append({"kind": "grid", "n": 5, "names": a, "lo": lo, "hi": lo + step, "ctors": ctors, "path_matrix": False})
         step = 4096 // N_VAR4_SHARDS
         for lo in range(0, 4096, step):
             out.append({"kind": "variants", "n": 4, "names": 0, "lo": lo, "hi": lo + step, "ctors": ["direct", "from_dict"]})
         step = (1 << 20) // 16
-        for a in range(2):
+        for a in (1, 4):
             for lo in range(0, 1 << 20, step):
                 out.append({"kind": "order5", "names": a, "lo": lo, "hi": lo + step})
         step = (1 << 20) // 4
         for hs in hash_seeds(seed):
-            for lo in range(0, 1 << 20, step):
-                out.append({"kind": "hashseed", "hashseed": hs,
-                            "desc": {"what": "grid", "ns": [5], "names": 1, "lo": lo, "hi": lo + step, "dags_only": True,
-                                     "ctors": ["direct", "from_dict"]}})
+            for a in (1, 4):
+                for lo in range(0, 1 << 20, step):
+                    out.append({"kind": "hashseed", "hashseed": hs,
+                                "desc": {"what": "grid", "ns": [5], "names": a, "lo": lo, "hi": lo + step, "dags_only": True,
+                                         "ctors": ["direct", "from_dict"]}})
     return out
 
 
